@@ -423,7 +423,8 @@ impl<'presentation> PresentationJwtClaims<'presentation> {
       .vp
       .id
       .as_ref()
-      .map(|value: &Url| -> (b: bool) ensures b == (self.jti is Some && cow_url(self.jti->Some_0) == *value) { self.jti.as_ref().filter(|jti: &&Cow<'_, Url>| -> (b: bool) ensures b == (cow_url(**jti) == *value) { jti.as_ref() == value }).is_some() })
+      .zip(self.jti.as_ref())
+      .map(|value: &Url| -> (b: bool) ensures b == (self.jti is Some && cow_url(self.jti->Some_0) == *value) { jti.as_ref() == value })
       .unwrap_or(true)
     {
       return Err(Error::InconsistentPresentationJwtClaims("inconsistent presentation id"));
@@ -433,7 +434,7 @@ impl<'presentation> PresentationJwtClaims<'presentation> {
       .vp
       .holder
       .as_ref()
-      .map(|value: &Url| -> (b: bool) ensures b == (cow_url(self.iss) == *value) { self.iss.as_ref() == value })
+      .map(|jti: &&Cow<'_, Url>| -> (b: bool) ensures b == (cow_url(**jti) == *value) { self.iss.as_ref() == value })
       .unwrap_or(true)
     {
       return Err(Error::InconsistentPresentationJwtClaims(
